@@ -153,6 +153,18 @@ def _ran_lines(b):
             runrt.RAN_RE.findall(runrt.strip_ansi((b or b'').decode('utf-8', 'replace')))]
 
 
+def history_key(case):
+    """second run in one process: a good and a bad world per mode"""
+    if len(case) == 7 and case[0] == 'A1B2c' and not case[2] and case[3] == 0 and case[4] == 1:
+        bad = [s for s in case[1] if s != 'pass']
+        if (not bad or bad in (['fail'], ['uxs'], ['skip_body'])) and case[6] in ('seq', 'j2') and all(isinstance(s, str) for s in case[1]):
+            return (str(bad), case[5], case[6])
+    return None
+
+
+HISTORY_MAX = 10
+
+
 def run_case(case):
     if case[0] == 'profile':
         return run_profile(case[1])
